@@ -25,7 +25,7 @@
               5 PickleSerializer       cfg = L []                                tabs = loader table of Unpickler(BytesIO(data)).load()
               6 compressors            cfg = L [A which(0 zlib,1 bz2); A inner]  tabs = L [decompressor table; inner ans table]
               7 file based             cfg = L [A limit; L expected]             tabs = loader table
-         inner = 1|2 JSON, 5 pickle, 9 bytes pass-through
+         inner = 0 StringLineSerializer(LF, ascii), 1|2 JSON, 5 pickle, 9 bytes pass-through
          ans table row  L [B key; L [A 0; B value]] | L [B key; L [A 1]] (rejected without exception) | L [B key; L [A 2; A step; A k]]
        output = L [oneshot; datagram; L copying_rounds; L buffered_rounds]
          oneshot  = L [A 0; B pkt] | L [A 1] (DeserializeError) | L [A 2; A k] (class k escapes)
@@ -198,6 +198,7 @@ Definition bind_ok (o : ores pk) (f : bytes -> ores pk) : ores pk :=
 
 Definition inner_oneshot (ifam : Z) (tab : bytes -> ans pk) : bytes -> ores pk :=
   match ifam with
+  | 0%Z => fun d => handle c_DeserializeError line_oneshot (tab (line_strip [10%N] false d))    (* StringLineSerializer("LF") *)
   | 1%Z | 2%Z => fun d => handle c_DeserializeError json_oneshot (tab d)
   | 5%Z => fun d => handle c_DeserializeError pickle_oneshot (tab d)
   | _ => fun d => OOk (Some d)
